@@ -84,7 +84,7 @@ def run(ctx):
     quick = ctx.tier == "quick"
     editcheck.run_histories(ctx, ORACLES, 2500 if quick else 60000)
     editcheck.run_histories(ctx, ORACLES, 24 if quick else 1200, tag="fft", fft=True)
-    ctx.cov["rule"] = ("seeded edit histories (1-8 data points, 1-3 samples, grids 3-11, alpha log-uniform in [0.01,100] and changed between "
+    ctx.cov["rule"] = ("seeded edit histories (1-8 data points, 1-3 samples optionally at levels hundreds of nats apart, grids 3-11, alpha log-uniform in [0.01,100] or extreme (1e-10..1e7) and changed between "
                        "operations, outliers on/off, persistence faults); after every applied operation log_p, log_p_one and the fused variant "
                        "on the live tree are compared with the FS-CRP reference model (term by term from the statement, own O(G^2) grid "
                        "marginal) to 1e-8+1e-9|x|; 'rebuild_pair' operations manufacture a second live tree of the same abstract form "
